@@ -445,15 +445,15 @@ theorem startOK_elim (g : Grammar) (tbl : Table) (aux : AuxMap) (h : startOK g t
 /-- `parser_sound`: for a table that passes `tableSafe` and a grammar that passes `relOK` against
 it, the yield of every tree the driver accepts — for ALL token strings — is derived by the grammar's
 start rule. -/
-theorem parser_sound_tree (g : Grammar) (tbl : Table) (aux : AuxMap) (hsafe : tableSafe tbl = true)
-    (hrel : relOK g tbl aux = true) (toks : List Nat) (t : PTree) (h : run tbl toks = .accepted t) :
+theorem parser_sound_tree_fuel (g : Grammar) (tbl : Table) (aux : AuxMap) (hsafe : tableSafe tbl = true)
+    (hrel : relOK g tbl aux = true) (toks : List Nat) (t : PTree) (f : Nat)
+    (h : runLoop tbl f { stack := [], toks := toks } = .accepted t) :
     DerivesTok g (.sym g.start) (yieldTok tbl t) := by
   unfold tableSafe at hsafe
   simp only [Bool.and_eq_true, decide_eq_true_eq] at hsafe
   obtain ⟨⟨⟨h1, hroot⟩, hleaf⟩, hnle⟩ := hsafe
   unfold relOK at hrel
   simp only [Bool.and_eq_true, List.all_eq_true] at hrel
-  unfold run at h
   obtain ⟨hover, sym, pid, dp, ks, q, a, rfl, hq, hacc, hedge⟩ :=
     runLoop_sound tbl h1 hroot hleaf hnle _ _ t (by simp [Spells]) h
   obtain ⟨hX, hauxn, hname⟩ := startOK_elim g tbl aux hrel.2 q a sym hq hacc hedge
@@ -463,6 +463,11 @@ theorem parser_sound_tree (g : Grammar) (tbl : Table) (aux : AuxMap) (hsafe : ta
   simp only [PTree.sym, hn, if_false, hauxn] at this
   rw [hname] at this
   exact this
+
+theorem parser_sound_tree (g : Grammar) (tbl : Table) (aux : AuxMap) (hsafe : tableSafe tbl = true)
+    (hrel : relOK g tbl aux = true) (toks : List Nat) (t : PTree) (h : run tbl toks = .accepted t) :
+    DerivesTok g (.sym g.start) (yieldTok tbl t) :=
+  parser_sound_tree_fuel g tbl aux hsafe hrel toks t _ (by unfold run at h; exact h)
 
 /-! ## the yield in terms of the token string -/
 
@@ -497,19 +502,18 @@ end
 /-- `parser_sound`: per validated (grammar, table) pair and for ALL token strings: if the driver
 accepts `toks`, the grammar's start rule derives the token string with the table's extra tokens
 removed. -/
-theorem parser_sound (g : Grammar) (tbl : Table) (aux : AuxMap) (hsafe : tableSafe tbl = true)
-    (hrel : relOK g tbl aux = true) (toks : List Nat) (hnz : ∀ a, a ∈ toks → a ≠ 0) (t : PTree)
-    (h : run tbl toks = .accepted t) :
+theorem parser_sound_fuel (g : Grammar) (tbl : Table) (aux : AuxMap) (hsafe : tableSafe tbl = true)
+    (hrel : relOK g tbl aux = true) (toks : List Nat) (hnz : ∀ a, a ∈ toks → a ≠ 0) (t : PTree) (f : Nat)
+    (h : runLoop tbl f { stack := [], toks := toks } = .accepted t) :
     DerivesTok g (.sym g.start) ((toks.filter fun a => !isExtraSym tbl a).map (tokOf tbl)) := by
-  have hd := parser_sound_tree g tbl aux hsafe hrel toks t h
+  have hd := parser_sound_tree_fuel g tbl aux hsafe hrel toks t f h
   have hsafe' := hsafe
   unfold tableSafe at hsafe'
   simp only [Bool.and_eq_true, decide_eq_true_eq] at hsafe'
   obtain ⟨⟨⟨h1, hroot⟩, hleaf⟩, hnle⟩ := hsafe'
-  have hover := (runLoop_sound tbl h1 hroot hleaf hnle (fuelFor toks) { stack := [], toks := toks } t (by simp [Spells]) (by unfold run at h; exact h)).1
+  have hover := (runLoop_sound tbl h1 hroot hleaf hnle f { stack := [], toks := toks } t (by simp [Spells]) h).1
   rw [yieldTok_eq tbl t hover] at hd
   have hy : t.leaves = toks ++ [0] := by
-    unfold run at h
     simpa [stackLeaves] using runLoop_yield tbl _ _ t h
   rw [hy] at hd
   have hf : (toks ++ [0]).filter (keepTok tbl) = toks.filter fun a => !isExtraSym tbl a := by
@@ -521,5 +525,11 @@ theorem parser_sound (g : Grammar) (tbl : Table) (aux : AuxMap) (hsafe : tableSa
     simp [keepTok, hnz a ha]
   rw [hf] at hd
   exact hd
+
+theorem parser_sound (g : Grammar) (tbl : Table) (aux : AuxMap) (hsafe : tableSafe tbl = true)
+    (hrel : relOK g tbl aux = true) (toks : List Nat) (hnz : ∀ a, a ∈ toks → a ≠ 0) (t : PTree)
+    (h : run tbl toks = .accepted t) :
+    DerivesTok g (.sym g.start) ((toks.filter fun a => !isExtraSym tbl a).map (tokOf tbl)) :=
+  parser_sound_fuel g tbl aux hsafe hrel toks hnz t _ (by unfold run at h; exact h)
 
 end TsVerif.C03
